@@ -4065,6 +4065,11 @@ impl CanonicalizeContext {
 	
 		// Reached the end -- force reduction of what's left on the stack
 		self.reduce_stack(&mut parse_stack, LEFT_FENCEPOST.priority);
+		// unbalanced fences (e.g., "|)" where the '|' started an mrow but is not seen as an open fence when the ')' arrives) can leave
+		// entries without an operator on the stack; reduce_stack() stops at those, so fold them into the mrow below them
+		while parse_stack.len() > 1 {
+			self.reduce_stack_one_time(&mut parse_stack);
+		}
 	
 		// We essentially have 'terminator( mrow terminator)'
 		//   in other words, we have an extra mrow with one child due to the initial start -- remove it
